@@ -31,6 +31,15 @@ fn main() {
         Some("replay") => replay(&args[2], &args[3]),
         Some("worker") => worker(&args),
         Some("sample") => sample(&args[2], &args[3], args.get(4).and_then(|s| s.parse().ok()).unwrap_or(10)),
+        Some("model") => {
+            // debugging aid: what the reference model says about (rule file, data file), and what it cost
+            let rule: serde_json::Value = serde_json::from_str(&std::fs::read_to_string(&args[2]).unwrap_or_default()).unwrap_or(serde_json::Value::Null);
+            let data: serde_json::Value = args.get(3).and_then(|f| std::fs::read_to_string(f).ok()).and_then(|t| serde_json::from_str(&t).ok()).unwrap_or(serde_json::Value::Null);
+            let t0 = std::time::Instant::now();
+            let (m, ctx) = jlverif::model::eval(&rule, &data);
+            println!("model: {:?}  steps {} nodes {} over_budget {} ({:?})", m, ctx.steps, ctx.nodes, ctx.over_budget, t0.elapsed());
+            0
+        }
         Some("selftest") => {
             match jlverif::selftest::run(&verif_root()) {
                 Ok(n) => {
